@@ -6,12 +6,20 @@ Tie: (a) translator: INIT_CAPACITY / MAX_LOAD regenerated, side conditions re-ch
 (b) correspondence impl == M: hook H3 drives the real ObjStringStore with generated (hash,text) histories,
 results and final table layout compared with Intern.v evaluated by vm_compute;
 (c) property level impl == S: op results against the association-list Spec, Vm::new_gc_obj_string
-identities against spec_intern_all, and yarel programs comparing strings built by different routes."""
+identities against spec_intern_all, and yarel programs comparing strings built by different routes;
+(d) round 9: EVERY construction site of an ObjString in yarel/src is regenerated into gen/StrSites.v and
+props/C11.v demands that the only ones are ObjString::new itself, Vm::new_gc_obj_string (get, construct, insert, all
+unconditional) and the hook; strings created by the VM itself (error messages of every kind, texts of every value
+kind, iteration keys, compiler reports of every length) are probed by tools/props/C11_routes.py."""
 import json
 import os
 
 import yvlib
 from yvlib import hx, log
+try:
+    from props import C11_routes
+except ImportError:   # loaded as a top-level module
+    import C11_routes
 
 LEVEL = "proof"
 TRUSTED = [
@@ -350,6 +358,13 @@ def run(ctx):
         for f in sorted(os.listdir(cdir)):
             with open(os.path.join(cdir, f)) as fh:
                 corpus.append([(bool(i), int(h), yvlib.unhx(s)) for i, h, s in json.load(fh)["ops"]])
+    if ctx.replay_only and "harness_line" in ctx.replay_only:
+        rp = ctx.replay_only
+        r = yvlib.run_harness(ctx.harness(rp.get("build", "debug")), [rp["harness_line"]], shards=1, case_timeout_ms=120000)[0]
+        if r.result[0] != "ok" or r.output != rp["expected"]:
+            ctx.violation(rp.get("what", "replayed program prints something else"), input=rp.get("input"), expected=rp["expected"],
+                          actual=r.output + [str(r.result)], harness_line=rp["harness_line"], build=rp.get("build", "debug"))
+        return
     if ctx.replay_only:
         hists = [[(bool(i), int(h), yvlib.unhx(s)) for i, h, s in ctx.replay_only["ops"]]]
         check_histories(ctx, hists, "replay")
@@ -438,6 +453,7 @@ def run(ctx):
         if r.result[0] != "ok" or r.output != expect:
             ctx.violation("strings built by routes %s/%s compare/hash differently from their bytes" % meta[:2],
                           input=src, expected=expect, actual=r.output + [str(r.result)])
+    vm_routes = vm_created(ctx, quick)
     # volume: identity must not depend on how many strings were created before (release build: the debug build
     # collects at every allocation and would take minutes); 60000 distinct pairs cross any table-size threshold < 2^17
     nvol = 60000 if quick else 200000
@@ -471,6 +487,7 @@ def run(ctx):
         if rr.result[0] != "ok" or rr.output != want or rr.uaf:
             ctx.violation("a string held by the host across Vm::reset() is no longer the same string as an equal text created afterwards",
                           input="c01seq reset token | " + s1 + " | " + s2, expected=want, actual=rr.output + [str(rr.result), "uaf=%s" % rr.uaf])
+    ctx.cov.update({"vm_created_routes": vm_routes})
     ctx.cov.update({"volume_strings": 2 * nvol, "reset_cases": reset_cases, "program_timeouts_retried_on_release": retried})
     ctx.cov.update({
         "evaluations": n + len(texts) + len(progs),
@@ -482,6 +499,39 @@ def run(ctx):
         "samples": [hist_line(hists[-1])[:400], progs[0][0]],
         "histories": n, "vm_intern_texts": len(texts), "programs": len(progs),
     })
+
+
+def vm_created(ctx, quick):
+    """round 9: strings created by the VM itself (tools/props/C11_routes.py); text-independent oracle"""
+    progs = C11_routes.programs(quick)
+    line = lambda src, mods: ("mods - %s %s" % (hx(src.encode()), " ".join("%s=%s" % (hx(k.encode()), hx(v.encode())) for k, v in sorted(mods.items())))).rstrip()
+    jobs = [("debug", p) for p in progs]
+    # SCALE: compiler reports of many lines on the release build (the collecting debug build is quadratic)
+    for n in ([65, 300] if quick else [33, 65, 129, 300, 1100, 3000]):
+        jobs.append(("release", ("error", "ImportError:compile@%d" % n, C11_routes._prog("", 'return ctx(|| { import "broken"; });'),
+                                 {"broken": C11_routes.broken_module(n)})))
+    recs = {}
+    for build in ("debug", "release"):
+        idx = [i for i, j in enumerate(jobs) if j[0] == build]
+        if idx:
+            out = yvlib.run_harness(ctx.harness(build), [line(jobs[i][1][2], jobs[i][1][3]) for i in idx], case_timeout_ms=60000)
+            recs.update(zip(idx, out))
+    retried = 0
+    nviol = 0
+    for i, (build, (kind, name, src, mods)) in enumerate(jobs):
+        r = recs[i]
+        if r.result[0] == "crash" and retried < 10:
+            retried += 1    # a time-out under machine load is not a verdict: once more, alone, release build
+            build = "release"
+            r = yvlib.run_harness(ctx.harness("release"), [line(src, mods)], shards=1, case_timeout_ms=180000)[0]
+        if r.result[0] != "ok" or r.output != C11_routes.EXPECT:
+            nviol += 1
+            if nviol <= 5:
+                ctx.violation("a string created by the VM itself (%s route %s) is not THE string with those bytes: obtained twice and "
+                              "rebuilt by concatenation/slicing/conversion it compares or hashes differently" % (kind, name),
+                              input=src, modules=mods, expected=C11_routes.EXPECT, actual=r.output + [str(r.result)] + r.messages[:3],
+                              harness_line=line(src, mods), build=build)
+    return {"programs": len(jobs), "kinds": sorted(set(j[1][0] for j in jobs)), "retried": retried, "failing": nviol}
 
 
 def search(ctx):
